@@ -368,9 +368,13 @@ def _check_finite(v):
     elif isinstance(v, int):
         if abs(v) >= 2 ** 31:
             raise Unspec("int outside 32 bits")
+    elif isinstance(v, complex):
+        raise Unspec("complex value")
     elif isinstance(v, float):
         if math.isnan(v) or math.isinf(v):
             raise Unspec("non-finite value")
+        if abs(v) > 1e30:
+            raise Unspec("magnitude beyond what single-precision arithmetic of the job carries")
 
 
 class AttrDict(dict):
